@@ -749,14 +749,16 @@ class Run:
                     f'final state: {msg2}', i, event='ADVANCE')
     if ev.get('chunk') and outer >= 1:
       self.output_chunk(i, frames, outer)
-    self.monitors(i, 'ADVANCE')
-    # frames: structural zeros and finiteness on every emitted frame
+    # frames first, in order (structural zeros and finiteness on every emitted
+    # frame): a gradual physical blow-up inside a long ADVANCE is then classified
+    # as instability before the final state is judged
     for k in range(outer):
       fk = jax.tree_util.tree_map(lambda a, k=k: a[k], frames)
       for oracle, msg in self.monitor.check(fk, sut.coords, max(sut.n, 1), None,
                                             self.job['dt'], f'sut-frame{k}'):
         if oracle in ('R-I1', 'R-I5'):
           self.report(oracle, msg, i, event='ADVANCE')
+    self.monitors(i, 'ADVANCE')
 
   def blame_divergence(self, i, ev, pre, n0, bad):
     """Differential diagnosis: which property does an ADVANCE divergence belong to?"""
